@@ -442,8 +442,83 @@ example : (2 : Rat) * 2 + V3.dot (⟨1, 2, 2⟩ : V3) ⟨1, 2, 2⟩ ≠ 0 := by 
 
 /-! ### Round 6: the source the model transcribes -/
 
+/-- the expression / statements of the source each model definition is the transcription of (regenerated from the
+    source into `Gen.c17Source` on every run, docstrings / comments / annotations dropped and the locals of each method
+    renamed `v0, v1, …`; `T_C17_source` proves the two tables equal) -/
+def sourceTable : List (String × List String) := [
+  ("ClampBase.__init__", ["self.position = np.array(v0)", "self.function = v1", "self.bounds = v2", "self.initial_params = v3", "self.params = self.get_params()", "self.update_params(self.params)"]),
+  ("ClampBase.get_params", ["def v0(v1): return f.norm(self.position - self.function(v1))", "v2 = scipy.optimize.minimize(v0, self.initial_guess, bounds=self.bounds, tol=TOL)", "return v2.x"]),
+  ("ClampBase.update_params", ["self.params = v0", "self.position = self.function(self.params)"]),
+  ("CurveClamp.__init__", ["v0 = np.array(v0)", "if v2 is not None: v3 = [v2] else: v3 = [v1.get_closest_param(v0)]", "super().__init__(v0, lambda v4: v1.get_point(v4[0]), [list(v1.bounds)], v3)"]),
+  ("CurveClamp.initial_guess", ["return self.initial_params"]),
+  ("LineClamp.__init__", ["v0 = np.array(v0)", "v1 = np.array(v1)", "v2 = np.array(v2)", "def v4(v5): return v1 + v5[0] * f.unit_vector(v2 - v1)", "if v3 is None: v3 = (0, f.norm(v2 - v1))", "super().__init__(v0, v4, [list(v3)])"]),
+  ("LineClamp.initial_guess", ["return [0]"]),
+  ("RadialClamp.__init__", ["v0 = np.array(v0)", "v4 = np.copy(v0)", "if v3 is not None: v5 = [v3] else: v5 = None", "v1 = np.array(v1, dtype=float)", "v2 = np.array(v2, dtype=float)", "v6 = f.point_to_line_distance(v1, v2, v0)", "super().__init__(v0, lambda v7: f.rotate(v4, v7[0] / v6, v2, v1), v5)"]),
+  ("RadialClamp.initial_guess", ["return [0]"]),
+  ("PlaneClamp.__init__", ["v1 = np.array(v1, dtype=DTYPE)", "v2 = f.unit_vector(v2)", "v3 = f.unit_vector(v2 + np.random.random(3))", "v4 = f.unit_vector(np.cross(v3, v2))", "v5 = f.unit_vector(np.cross(v4, v2))", "def v6(v7): return v1 + v7[0] * v4 + v7[1] * v5", "super().__init__(v0, v6)"]),
+  ("PlaneClamp.initial_guess", ["return [0, 0]"]),
+  ("ParametricSurfaceClamp.initial_guess", ["if self.initial_params is None: return [0, 0]", "return self.initial_params"]),
+  ("LineCurve.__init__", ["self.point_1 = Point(v0)", "self.point_2 = Point(v1)", "super().__init__(self._line_function, v2)"]),
+  ("LineCurve._line_function", ["return self.point_1.position + self.vector * v0"]),
+  ("LineCurve.vector", ["return self.point_2.position - self.point_1.position"]),
+  ("LinkBase.__init__", ["self.leader = np.array(v0)", "self.follower = np.array(v1)"]),
+  ("LinkBase.update", ["v0 = self.transform()", "self.follower = v0"]),
+  ("TranslationLink.__init__", ["super().__init__(v0, v1)", "self.vector = self.follower - self.leader"]),
+  ("TranslationLink.transform", ["return self.leader + self.vector"]),
+  ("RotationLink.__init__", ["super().__init__(v0, v1)", "self.origin = np.array(v3)", "self.axis = f.unit_vector(v2)", "self.orig_leader_radius = self._get_radius(self.leader)", "self.orig_follower_pos = np.copy(self.follower)", "if f.norm(self.orig_leader_radius) < constants.TOL: raise ValueError('Leader and rotation axis are coincident!')"]),
+  ("RotationLink.transform", ["v0 = self.orig_leader_radius", "v1 = self._get_radius(self.leader)", "v2 = f.angle_between(v0, v1)", "v3 = np.cross(v0, v1)", "if np.dot(v3, self.axis) < 0: v2 = -v2", "return f.rotate(self.orig_follower_pos, v2, self.axis, self.origin)"]),
+  ("RotationLink._get_height", ["return np.dot(v0 - self.origin, self.axis) * self.axis"]),
+  ("RotationLink._get_radius", ["return v0 - self.origin - self._get_height(v0)"]),
+  ("SymmetryLink.__init__", ["self.normal = np.array(v2)", "self.origin = np.array(v3)", "super().__init__(v0, v1)", "self.transform()"]),
+  ("SymmetryLink._get_follower", ["return f.mirror(self.leader, self.normal, self.origin)"]),
+  ("SymmetryLink.transform", ["return self._get_follower()"])]
+
 /-- every expression / statement list of `optimize/clamps`, `optimize/links` and `LineCurve` that a model definition
     transcribes is what the current source says (regenerated with `ast` on every run) -/
 theorem T_C17_source : sourceTable = Gen.c17Source := by rfl
+
+/-! ### Round 6b: `transform()` is a query -/
+
+/-- the link never looks at the answers it gave -/
+theorem runEv_link_indep (transform : V3 → V3) (evs : List LinkEv) (l : Link) (q1 q2 : List V3) :
+    (Link.runEv transform (l, q1) evs).1 = (Link.runEv transform (l, q2) evs).1 := by
+  induction evs generalizing l q1 q2 with
+  | nil => rfl
+  | cons e es ih =>
+      cases e <;> simp only [Link.runEv, List.foldl_cons, Link.step] <;> exact ih _ _ _
+
+/-- asking `transform()` any number of times, anywhere in a history of leader moves and updates, changes nothing: the
+    link ends exactly where it ends in the history without the queries (the model's `transform` is a function of the
+    leader; an implementation whose `transform()` keeps state between calls breaks this) -/
+theorem T_C17_query_pure (transform : V3 → V3) (evs : List LinkEv) (s : Link × List V3) :
+    (Link.runEv transform s evs).1 = (Link.runEv transform s (evs.filter (fun e => !e.isQuery))).1 := by
+  induction evs generalizing s with
+  | nil => rfl
+  | cons e es ih =>
+      cases e with
+      | query =>
+          have hf : (LinkEv.query :: es).filter (fun e => !e.isQuery) = es.filter (fun e => !e.isQuery) := by
+            simp [LinkEv.isQuery]
+          rw [hf, ← ih s]
+          simp only [Link.runEv, List.foldl_cons, Link.step]
+          exact runEv_link_indep transform es s.1 _ _
+      | move p =>
+          have hf : (LinkEv.move p :: es).filter (fun e => !e.isQuery) = .move p :: es.filter (fun e => !e.isQuery) := by
+            simp [LinkEv.isQuery]
+          rw [hf]
+          simp only [Link.runEv, List.foldl_cons]
+          exact ih _
+      | update =>
+          have hf : (LinkEv.update :: es).filter (fun e => !e.isQuery) = .update :: es.filter (fun e => !e.isQuery) := by
+            simp [LinkEv.isQuery]
+          rw [hf]
+          simp only [Link.runEv, List.foldl_cons]
+          exact ih _
+
+/-- every query answers `transform` of the leader as it is at that moment — the follower the next `update()` stores -/
+theorem T_C17_query_answer (transform : V3 → V3) (l : Link) (qs : List V3) (p : V3) :
+    (Link.runEv transform (l, qs) [.move p, .query, .update]).2 = qs ++ [transform p] ∧
+      (Link.runEv transform (l, qs) [.move p, .query, .update]).1.follower = transform p := by
+  simp [Link.runEv, Link.step, Link.update]
 
 end CBV.C17
